@@ -197,13 +197,17 @@ theorem noOpS_frame : Frame noOpS := by
 
 /-! ## D.3 IGO -/
 
-/-- the square-root contract: `mag g_y g_x = |g_y + i·g_x|` -/
-def MagContract (mag : Rat → Rat → Rat) : Prop := ∀ a b, 0 ≤ mag a b ∧ mag a b * mag a b = a * a + b * b
+/-- the square-root contract AT ONE PIXEL: `mag g_y g_x = |g_y + i·g_x|` for this gradient `(a, b)`.
+(A `mag : ℚ → ℚ → ℚ` satisfying it for ALL `(a, b)` does not exist — `(1, 1)` would need a rational `√2` — so the
+theorems below take the contract for the pixel they speak about only; over ℚ it is satisfiable exactly where
+`a² + b²` is a rational square, e.g. the 3-4-5 gradient of `magEx`.  `Props/C18Real.lean` states the same facts over
+any linearly ordered field and exhibits `Real.sqrt` as a witness for EVERY gradient.) -/
+def MagAt (mag : Rat → Rat → Rat) (a b : Rat) : Prop := 0 ≤ mag a b ∧ mag a b * mag a b = a * a + b * b
 
-theorem mag_ne_zero (mag : Rat → Rat → Rat) (hc : MagContract mag) (a b : Rat) (h : ¬ (a = 0 ∧ b = 0)) :
+theorem mag_ne_zero (mag : Rat → Rat → Rat) (a b : Rat) (hc : MagAt mag a b) (h : ¬ (a = 0 ∧ b = 0)) :
     mag a b ≠ 0 := by
   intro h0
-  have h2 := (hc a b).2
+  have h2 := hc.2
   rw [h0] at h2
   have hz : a * a + b * b = 0 := by linarith
   have ha : a = 0 := by nlinarith [mul_self_nonneg a, mul_self_nonneg b]
@@ -211,24 +215,24 @@ theorem mag_ne_zero (mag : Rat → Rat → Rat) (hc : MagContract mag) (a b : Ra
   exact h ⟨ha, hb⟩
 
 /-- PROPERTY (`cos² + sin² = 1` at every pixel — also where the gradient vanishes: `angle(0) = 0`) -/
-theorem unitDir_unit (mag : Rat → Rat → Rat) (hc : MagContract mag) (gy gx : Rat) :
+theorem unitDir_unit (mag : Rat → Rat → Rat) (gy gx : Rat) (hc : MagAt mag gy gx) :
     (unitDir mag gy gx).1 * (unitDir mag gy gx).1 + (unitDir mag gy gx).2 * (unitDir mag gy gx).2 = 1 := by
   unfold unitDir
   split
   · simp
   · rename_i h
-    have hm := mag_ne_zero mag hc gy gx h
-    have h2 := (hc gy gx).2
+    have hm := mag_ne_zero mag gy gx hc h
+    have h2 := hc.2
     simp only []
     field_simp
     linarith
 
 /-- … and for the double-angle channels -/
-theorem unitDir_double_unit (mag : Rat → Rat → Rat) (hc : MagContract mag) (gy gx : Rat) :
+theorem unitDir_double_unit (mag : Rat → Rat → Rat) (gy gx : Rat) (hc : MagAt mag gy gx) :
     (2 * (unitDir mag gy gx).1 * (unitDir mag gy gx).2) * (2 * (unitDir mag gy gx).1 * (unitDir mag gy gx).2) +
     ((unitDir mag gy gx).2 * (unitDir mag gy gx).2 - (unitDir mag gy gx).1 * (unitDir mag gy gx).1) *
     ((unitDir mag gy gx).2 * (unitDir mag gy gx).2 - (unitDir mag gy gx).1 * (unitDir mag gy gx).1) = 1 := by
-  have h := unitDir_unit mag hc gy gx
+  have h := unitDir_unit mag gy gx hc
   set s := (unitDir mag gy gx).1
   set c := (unitDir mag gy gx).2
   have : (2 * s * c) * (2 * s * c) + (c * c - s * s) * (c * c - s * s) = (s * s + c * c) * (s * s + c * c) := by ring
@@ -291,8 +295,9 @@ theorem map2_tab (f : Rat → Rat → Rat) (H W : Nat) (u v : Nat → Nat → Ra
 
 /-- PROPERTY (IGO per pixel): at every pixel of every channel the sine and cosine channels satisfy
 `sin² + cos² = 1`, and so do the double-angle channels -/
-theorem igo_pixel_unit (mag : Rat → Rat → Rat) (hc : MagContract mag) (M : Chan2) (i j : Nat)
-    (hi : i < nRows M) (hj : j < nCols M) :
+theorem igo_pixel_unit (mag : Rat → Rat → Rat) (M : Chan2) (i j : Nat)
+    (hi : i < nRows M) (hj : j < nCols M)
+    (hc : MagAt mag (gradAt (fun k => elem M k j) (nRows M) i) (gradAt (fun k => elem M i k) (nCols M) j)) :
     elem (sinC mag (gradY M) (gradX M)) i j * elem (sinC mag (gradY M) (gradX M)) i j +
       elem (cosC mag (gradY M) (gradX M)) i j * elem (cosC mag (gradY M) (gradX M)) i j = 1 ∧
     elem (sin2C mag (gradY M) (gradX M)) i j * elem (sin2C mag (gradY M) (gradX M)) i j +
@@ -300,7 +305,7 @@ theorem igo_pixel_unit (mag : Rat → Rat → Rat) (hc : MagContract mag) (M : C
   unfold sinC cosC sin2C cos2C gradY gradX
   simp only [map2_tab]
   rw [elem_tab _ _ _ i j hi hj, elem_tab _ _ _ i j hi hj, elem_tab _ _ _ i j hi hj, elem_tab _ _ _ i j hi hj]
-  exact ⟨unitDir_unit mag hc _ _, unitDir_double_unit mag hc _ _⟩
+  exact ⟨unitDir_unit mag _ _ hc, unitDir_double_unit mag _ _ hc⟩
 
 theorem map2_dims (f : Rat → Rat → Rat) (A B : Chan2) (h1 : nRows A = nRows B) (h2 : nCols A = nCols B) :
     nRows (map2 f A B) = nRows A ∧ nCols (map2 f A B) = nCols A := by
@@ -355,6 +360,10 @@ def magEx (a b : Rat) : Rat := if a = 3 ∧ b = 4 then 5 else if a = 0 ∧ b = 0
 example : igo2 magEx false [[[0, 4], [3, 7]]] = .ok [[[4 / 5, 4 / 5], [4 / 5, 4 / 5]], [[3 / 5, 3 / 5], [3 / 5, 3 / 5]]] := by
   decide +kernel
 example : (unitDir magEx 0 0) = (0, 1) := by decide +kernel
+/-- the pointwise contract is satisfiable: `magEx` satisfies it at the 3-4-5 gradient and at the vanishing gradient -/
+example : MagAt magEx 3 4 ∧ MagAt magEx 0 0 := by unfold MagAt; decide +kernel
+example : (unitDir magEx 3 4).1 * (unitDir magEx 3 4).1 + (unitDir magEx 3 4).2 * (unitDir magEx 3 4).2 = 1 :=
+  unitDir_unit magEx 3 4 (by unfold MagAt; decide +kernel)
 
 /-! ## D.4 ES -/
 
@@ -399,11 +408,11 @@ theorem median_nonneg (l : List Rat) (h : ∀ x ∈ l, 0 ≤ x) : 0 ≤ median l
 
 /-- PROPERTY (ES per pixel): a value is produced exactly where the denominator `|g| + median` is not zero, and then
 the two ES channels lie in the unit disc: `e_y² + e_x² = (|g| / (|g| + med))² ≤ 1` -/
-theorem es_pixel_bounded (mag : Rat → Rat → Rat) (hc : MagContract mag) (med gy gx : Rat) (hmed : 0 ≤ med)
+theorem es_pixel_bounded (mag : Rat → Rat → Rat) (med gy gx : Rat) (hc : MagAt mag gy gx) (hmed : 0 ≤ med)
     (hden : mag gy gx + med ≠ 0) :
     ∃ ey ex, esPix (mag gy gx + med) gy = some ey ∧ esPix (mag gy gx + med) gx = some ex ∧ ey * ey + ex * ex ≤ 1 := by
   refine ⟨gy / (mag gy gx + med), gx / (mag gy gx + med), by simp [esPix, hden], by simp [esPix, hden], ?_⟩
-  obtain ⟨h0, h2⟩ := hc gy gx
+  obtain ⟨h0, h2⟩ := hc
   have hpos : 0 < mag gy gx + med := lt_of_le_of_ne (by linarith) (Ne.symm hden)
   have e : gy / (mag gy gx + med) * (gy / (mag gy gx + med)) + gx / (mag gy gx + med) * (gx / (mag gy gx + med))
       = (mag gy gx * mag gy gx) / ((mag gy gx + med) * (mag gy gx + med)) := by
@@ -412,9 +421,9 @@ theorem es_pixel_bounded (mag : Rat → Rat → Rat) (hc : MagContract mag) (med
   nlinarith
 
 /-- the only non-finite ES values: `0/0` where both the gradient and the median magnitude vanish -/
-theorem es_nan_iff (mag : Rat → Rat → Rat) (hc : MagContract mag) (med gy gx : Rat) (hmed : 0 ≤ med) :
+theorem es_nan_iff (mag : Rat → Rat → Rat) (med gy gx : Rat) (hc : MagAt mag gy gx) (hmed : 0 ≤ med) :
     esPix (mag gy gx + med) gy = none ↔ (gy = 0 ∧ gx = 0 ∧ med = 0) := by
-  obtain ⟨h0, h2⟩ := hc gy gx
+  obtain ⟨h0, h2⟩ := id hc
   unfold esPix
   constructor
   · intro h
@@ -424,11 +433,11 @@ theorem es_nan_iff (mag : Rat → Rat → Rat) (hc : MagContract mag) (med gy gx
       have hmed0 : med = 0 := by linarith
       by_cases hg : gy = 0 ∧ gx = 0
       · exact ⟨hg.1, hg.2, hmed0⟩
-      · exact absurd hm (mag_ne_zero mag hc gy gx hg)
+      · exact absurd hm (mag_ne_zero mag gy gx hc hg)
     · cases h
   · rintro ⟨rfl, rfl, rfl⟩
     have : mag 0 0 = 0 := by
-      have := (hc 0 0).2
+      have := hc.2
       have h3 : mag 0 0 * mag 0 0 = 0 := by simpa using this
       exact mul_self_eq_zero.mp h3
     simp [this]
